@@ -99,7 +99,8 @@ pub fn check_segment_pin(log: &[Ev], strict_first: bool, rst: Pin, spi_counts: &
 
 pub fn run(ctx: &Ctx) -> Report {
     let mut rep = Report::new();
-    let delays: &[Option<u32>] = &[None, Some(0), Some(1), Some(250)];
+    // idle-delay settings: the documented ones plus unusually long but legal polling periods
+    let delays: &[Option<u32>] = &[None, Some(0), Some(1), Some(250), Some(199_999), Some(200_000), Some(250_000), Some(u32::MAX)];
     for spec in panels_for(ctx) {
         // operations that must contain a pulse: new, wake_up (fresh, after sleep, twice), re-init ops
         let mut scenarios: Vec<(String, Vec<Op>, bool)> = Vec::new(); // (entry, prefix+op (last op is checked), strict)
